@@ -1663,6 +1663,63 @@ Section Inv.
     - unfold fsize. rewrite F'. reflexivity.
   Qed.
 
+  (* ---- opening a file as it lies on ANY volume (C06): header `key`, data blocks L and extension blocks E placed anywhere, in any order,
+          fragmented or not; ct = the bytes the tables lead to ---- *)
+  Definition on_disk (d : disk) (L E ct : list Z) : Prop :=
+    (exists h, d key = BHdr h /\ hdr_ok h L E /\ h_size h = len ct)
+    /\ len L = size2db (len ct) bs /\ len E = db2ext (len L) /\ NoDup (key :: L ++ E) /\ (forall b, In b (L ++ E) -> 2 <= b)
+    /\ (forall j, 0 <= j < len E -> d (nthZ E j) = BExt (enc_x L E j))
+    /\ (forall k, 0 <= k < len L -> exists dd, d (nthZ L k) = BData dd /\ len (d_bytes dd) = bs /\ (ofs = true -> k + 1 < len L -> d_next dd = nthZ L (k + 1))
+                                      /\ forall o, 0 <= o < bs -> k * bs + o < len ct -> nthZ ct (k * bs + o) = nthZ (d_bytes dd) o).
+
+  Theorem open_image_ok d L E ct r w : on_disk d L E ct ->
+    exists s', fio_open bs ofs nobad d key r w = (true, s') /\ Inv s' L E /\ Repr s' L ct /\ pos s' = 0 /\ dk s' = d /\ mr s' = r /\ mw s' = w.
+  Proof.
+    intros ((h & Hdk & Hh & Hsz) & HL & HE & Hnd & Hge & Hx & Hd).
+    unfold fio_open. rewrite Hdk. set (s0 := init_handle bs d h r w).
+    unfold fio_seek. rewrite seek_gen_unfold. change (cur s0) with 0. cbn [Z.eqb negb andb]. rewrite andb_false_r.
+    unfold seek_tail. change (cur s0) with 0. cbn [Z.eqb negb andb]. unfold settle. change (chg s0) with false. rewrite andb_false_r. cbn [Z.eqb].
+    assert (C0 : CB s0 L E).
+    { split; [|split; [|reflexivity]].
+      - constructor.
+        + exact Hh.
+        + unfold fsize. change (fh s0) with h. rewrite Hsz. apply len_nonneg.
+        + exact HE.
+        + exact Hnd.
+        + exact Hge.
+        + exact Logic.I.
+        + intros j Hj. left. exact (Hx j Hj).
+        + intros k Hk. right. destruct (Hd k Hk) as (dd & H1 & H2 & H3 & _). exists dd. splits; assumption.
+        + intros Hc. discriminate Hc.
+      - unfold fsize. change (fh s0) with h. rewrite Hsz. exact HL. }
+    destruct (seek_start_cb s0 L E C0 Logic.I zero_d_len) as (s' & Hss & I' & P' & C' & D' & F' & W' & M' & _).
+    exists s'. split; [exact Hss|]. splits; try assumption.
+    unfold Repr. assert (Hfs : fsize s' = len ct) by (unfold fsize; rewrite F'; exact Hsz). split; [symmetry; exact Hfs|].
+    intros i Hi. rewrite Hfs in Hi. unfold byte_at.
+    assert (Hk : 0 <= i / bs < len L) by (rewrite HL; apply idx_in_range; exact Hi).
+    destruct (clean_disk s' L E (i / bs) I' C' Hk) as (dd' & H1' & _ & _ & H4'). rewrite H4'.
+    destruct (Hd (i / bs) Hk) as (dd & H1 & _ & _ & Hby). assert (D2 : dk s' = d) by (rewrite D'; reflexivity). rewrite D2, H1 in H1'. assert (dd' = dd) as -> by congruence.
+    pose proof (Z.mod_pos_bound i bs Hbs) as Hm. pose proof (Z.div_mod i bs ltac:(lia)) as Hdm.
+    rewrite <- (Hby (i mod bs) Hm) by lia. f_equal. lia.
+  Qed.
+
+  (* ... and reading n bytes at offset p through a handle opened on it returns the slice of the content *)
+  Theorem read_image_slice d L E ct w p n : on_disk d L E ct -> 0 <= p -> 0 <= n ->
+    exists s1 s2 s3 rd, fio_open bs ofs nobad d key true w = (true, s1) /\ fio_seek bs ofs nobad s1 p = (true, s2) /\ fio_read bs ofs nobad s2 n = (s3, rd)
+      /\ rd = sub ct (Z.min p (len ct)) (Z.max 0 (Z.min n (len ct - Z.min p (len ct)))) /\ pos s3 = Z.min p (len ct) + len rd.
+  Proof.
+    intros Hod Hp Hn. destruct (open_image_ok d L E ct true w Hod) as (s1 & Ho & I1 & R1 & P1 & D1 & Mr1 & Mw1).
+    destruct (fio_seek_ok s1 L E ct p I1 R1 Hp) as (s2 & Hsk & I2 & R2 & P2 & F2 & W2 & M2).
+    destruct (fio_read_ok s2 L E ct n I2 R2 Hn) as (s3 & rd & Hrd & I3 & R3 & Hres).
+    cbv zeta in Hres. rewrite M2, Mr1 in Hres. destruct Hres as (Hr & P3 & _).
+    assert (Hfs : fsize s1 = len ct) by (destruct R1 as (Hl & _); symmetry; exact Hl).
+    assert (Hfs2 : fsize s2 = len ct) by (unfold fsize in *; rewrite F2; exact Hfs).
+    rewrite Hfs2, P2, Hfs in Hr, P3.
+    exists s1, s2, s3, rd. splits; try assumption.
+    rewrite P3, Hr. set (m := Z.min p (len ct)). pose proof (len_nonneg ct).
+    rewrite len_sub by (subst m; lia). reflexivity.
+  Qed.
+
   (* ---- a new file ---- *)
   Theorem fio_new_ok d r w : Inv (fio_new bs d key r w) [] [] /\ Repr (fio_new bs d key r w) [] [] /\ pos (fio_new bs d key r w) = 0.
   Proof.
